@@ -266,6 +266,12 @@ EDITS = {
         ("md01", "crates/lib/mimium-lang/src/ast/program.rs", "                            errs,\n                            &new_prefix,\n                            module_info,\n                        )\n                    }\n                    None => {", "                            errs,\n                            module_prefix,\n                            module_info,\n                        )\n                    }\n                    None => {", "verus", "use_tables"),
         ("md02", "crates/lib/mimium-lang/src/ast/program.rs", "                let mut new_prefix = module_prefix.to_vec();\n                new_prefix.push(name);", "                let mut new_prefix = module_prefix.to_vec();\n                new_prefix.insert(0, name);", "verus", "use_tables"),
         ("md03", "crates/lib/mimium-lang/src/ast/program.rs", "                let restore_decl = (Statement::DeclareStage(current_stage.clone()), module_loc);", "                let restore_decl = (Statement::DeclareStage(StageKind::Main), module_loc);", "verus", "use_tables"),
+        ("us01", "crates/lib/mimium-lang/src/ast/program.rs", "                        .contains(&local_module_symbol)\n                        || module_info\n                            .loaded_external_modules\n                            .contains(&absolute_module_symbol)", "                        .contains(&absolute_module_symbol)", "verus", "use_tables"),
+        ("us02", "crates/lib/mimium-lang/src/ast/program.rs", "                        let new_prefix = vec![base_module];", "                        let mut new_prefix = module_prefix.to_vec();\n                        new_prefix.push(base_module);", "verus", "use_tables"),
+        ("us03", "crates/lib/mimium-lang/src/ast/program.rs", "                            (Statement::DeclareStage(current_stage.clone()), module_loc);\n                        [vec![start_decl]", "                            (Statement::DeclareStage(StageKind::Main), module_loc);\n                        [vec![start_decl]", "verus", "use_tables"),
+        ("us04", "crates/lib/mimium-lang/src/ast/program.rs", "                process_use_statement(&visibility, &path, &target, module_prefix, module_info);\n                (!imported_stmts", "                if imported_stmts.is_empty() {\n                    process_use_statement(&visibility, &path, &target, module_prefix, module_info);\n                } else {\n                    process_use_statement(&Visibility::Public, &path, &target, module_prefix, module_info);\n                }\n                (!imported_stmts", "verus", "use_tables"),
+        ("us05", "crates/lib/mimium-lang/src/ast/program.rs", "                        module_info\n                            .loaded_external_modules\n                            .insert(absolute_module_symbol);\n", "                        module_info\n                            .loaded_external_modules\n                            .insert(local_module_symbol);\n", "verus", "use_tables"),
+        ("us06", "crates/lib/mimium-lang/src/ast/program.rs", "                process_use_statement(&visibility, &path, &target, module_prefix, module_info);\n                (!imported_stmts", "                process_use_statement(&Visibility::Public, &path, &target, module_prefix, module_info);\n                (!imported_stmts", "verus", "use_tables"),
         ("rn01", "crates/lib/mimium-lang/src/compiler/mirgen/convert_qualified_names.rs", "resolved_path.len() < 2", "resolved_path.len() < 1", "verus", "resolve_names"),
         ("rn02", "crates/lib/mimium-lang/src/compiler/mirgen/convert_qualified_names.rs", "self.current_module_context.starts_with(target_module)", "target_module.starts_with(&self.current_module_context)", "verus", "resolve_names"),
         ("rn03", "crates/lib/mimium-lang/src/compiler/mirgen/convert_qualified_names.rs", "        if !is_public && !is_same_module {", "        if !is_public && is_same_module {", "verus", "resolve_names"),
